@@ -292,6 +292,21 @@ var solvers = []solverSpec{
 	}, ""},
 }
 
+// retrySolvers: the portfolio used when the first attempt of an obligation did not finish: the three
+// solvers plus z3-new under three other random seeds (slow quantified goals vary by a factor of five
+// between seeds; the answer is taken from whichever instance finishes first).
+var retrySolvers = append(append([]solverSpec{}, solvers...),
+	solverSpec{"z3-new-5.1.0/seed1", func(f string, t int) []string {
+		return []string{"z3-new", fmt.Sprintf("-T:%d", t), "smt.random_seed=1", "sat.random_seed=1", f}
+	}, ""},
+	solverSpec{"z3-new-5.1.0/seed2", func(f string, t int) []string {
+		return []string{"z3-new", fmt.Sprintf("-T:%d", t), "smt.random_seed=2", "sat.random_seed=2", f}
+	}, ""},
+	solverSpec{"z3-new-5.1.0/seed3", func(f string, t int) []string {
+		return []string{"z3-new", fmt.Sprintf("-T:%d", t), "smt.random_seed=3", "sat.random_seed=3", f}
+	}, ""},
+)
+
 var scratchDir string
 var scratchOnce sync.Once
 
@@ -345,6 +360,15 @@ func cacheKey(query string, needAgree int) string {
 }
 
 func solve(name, query string, timeoutS int, needAgree int) SolveResult {
+	return solveWith(solvers, name, query, timeoutS, needAgree)
+}
+
+// solveRetry: second attempt with the larger portfolio.
+func solveRetry(name, query string, timeoutS int, needAgree int) SolveResult {
+	return solveWith(retrySolvers, name, query, timeoutS, needAgree)
+}
+
+func solveWith(solvers []solverSpec, name, query string, timeoutS int, needAgree int) SolveResult {
 	cd := cacheDir()
 	var ck string
 	if cd != "" {
@@ -357,7 +381,7 @@ func solve(name, query string, timeoutS int, needAgree int) SolveResult {
 			}
 		}
 	}
-	r := solveUncached(name, query, timeoutS, needAgree)
+	r := solveUncached(solvers, name, query, timeoutS, needAgree)
 	if cd != "" && r.Status == "unsat" {
 		os.MkdirAll(cd, 0o755)
 		if b, err := json.Marshal(r); err == nil {
@@ -367,7 +391,7 @@ func solve(name, query string, timeoutS int, needAgree int) SolveResult {
 	return r
 }
 
-func solveUncached(name, query string, timeoutS int, needAgree int) SolveResult {
+func solveUncached(solvers []solverSpec, name, query string, timeoutS int, needAgree int) SolveResult {
 	file := filepath.Join(scratch(), sanitize(name)+".smt2")
 	if err := os.WriteFile(file, []byte(query), 0o644); err != nil {
 		return SolveResult{Status: "error", Output: err.Error()}
